@@ -306,9 +306,10 @@ def build_secret_body(alg, created, params, secret, curve=None, kdf=None, protec
     return pub + bytes([usage, sym]) + _s2k.build_spec(spec) + iv + ct
 
 
-def build_gnu_dummy_body(alg, created, params, curve=None, kdf=None, mode=1, serial=b''):
+def build_gnu_dummy_body(alg, created, params, curve=None, kdf=None, mode=1, serial=b'', halg=0, sym=0, usage=254):
+    """GnuPG 2.1+ writes usage 254/255, cipher 0, hash octet 0; GnuPG 1.4 / 2.0 leave the ids the key was protected with (e.g. FE 03 65 02 'GNU' 01)"""
     pub = build_public_body(alg, created, params, curve, kdf)
-    out = pub + bytes([254, 0, 101]) + b'\x00GNU' + bytes([mode])
+    out = pub + bytes([usage, sym, 101, halg]) + b'GNU' + bytes([mode])
     if mode == 2:
         out += bytes([len(serial)]) + serial
     return out
